@@ -57,7 +57,10 @@ Sticky(kind, a, b) == kind \in ChanKinds /\ Len(a.chans) = Len(a.items) /\ Len(b
                         \A id \in Ids(a) \cap Ids(b) : ChanOf(a, id) = ChanOf(b, id)
 
 StateClauses(kind, a, b) ==
-     If(b.ex /\ ~Aligned(kind, b), "C15:misaligned")
+     \* (aux = -1: the harness found the declared size of the block different from the size of
+     \* its encoding - for a channel-mapped block the sign of a channel map that is longer or
+     \* shorter than the item list, which pair iteration would hide)
+     If(b.ex /\ (~Aligned(kind, b) \/ (kind \in ChanKinds /\ b.aux < 0)), "C15:misaligned")
   \cup If(b.ex /\ kind \in ChanKinds /\ ~Unique(b), "C15:duplicate_channel")
   \cup If(a.ex /\ b.ex /\ ~Sticky(kind, a, b), "C15:channel_moved")
 
